@@ -39,10 +39,22 @@ const userSchema = `{"type":"object","properties":{
     "resourceRefs":{"type":"array","items":{"type":"object","properties":{"name":{"type":"string"}}}}}},
   "free":{"type":"object","x-kubernetes-preserve-unknown-fields":true},
   "items":{"type":"array","items":{"type":"object","properties":{"name":{"type":"string"},"resourceRef":{"type":"object","properties":{"name":{"type":"string"}}}}}},
-  "xrOnly":{"type":"string"}}},
+  "xrOnly":{"type":"string"},
+  "name":{"type":"string"},
+  "type":{"type":"string"},
+  "namespace":{"type":"string"},
+  "kind":{"type":"string"},
+  "labels":{"type":"object","x-kubernetes-preserve-unknown-fields":true},
+  "metadata":{"type":"object","x-kubernetes-preserve-unknown-fields":true},
+  "matchLabels":{"type":"object","x-kubernetes-preserve-unknown-fields":true}}},
  "status":{"type":"object","properties":{
   "out":{"type":"string"},
   "count":{"type":"integer"},
+  "message":{"type":"string"},
+  "reason":{"type":"string"},
+  "type":{"type":"string"},
+  "status":{"type":"string"},
+  "lastPublishedTime":{"type":"string"},
   "nestedOut":{"type":"object","properties":{
     "conditions":{"type":"array","items":{"type":"object","properties":{"type":{"type":"string"},"status":{"type":"string"}}}},
     "connectionDetails":{"type":"object","properties":{"lastPublishedTime":{"type":"string"}}},
@@ -51,8 +63,8 @@ const userSchema = `{"type":"object","properties":{
 // userSpecKeys / userStatusKeys are the top-level user-defined fields of the
 // schema above (the oracle's notion of "user-defined").
 var (
-	userSpecKeys   = []string{"param", "count", "nested", "free", "items", "xrOnly"}
-	userStatusKeys = []string{"out", "count", "nestedOut"}
+	userSpecKeys   = []string{"param", "count", "nested", "free", "items", "xrOnly", "name", "type", "namespace", "kind", "labels", "metadata", "matchLabels"}
+	userStatusKeys = []string{"out", "count", "nestedOut", "message", "reason", "type", "status", "lastPublishedTime"}
 )
 
 func makeXRD() *v1.CompositeResourceDefinition {
@@ -271,6 +283,9 @@ func userSpec(shape int) map[string]any {
 		spec["param"] = "p1"
 		spec["nested"] = nested()
 		spec["free"] = map[string]any{"claimRef": map[string]any{"name": "f-cr"}, "resourceRefs": "f-scalar", "deep": map[string]any{"compositionRef": "f-deep"}}
+		spec["name"] = "u-name"
+		spec["type"] = "u-type"
+		spec["labels"] = map[string]any{"tier": "u-tier"}
 	case 2:
 		spec["items"] = items()
 		spec["count"] = int64(0)
@@ -280,6 +295,11 @@ func userSpec(shape int) map[string]any {
 		spec["nested"] = nested()
 		spec["free"] = map[string]any{"writeConnectionSecretToRef": map[string]any{"name": "f-w"}}
 		spec["items"] = items()
+		spec["name"] = "u-name"
+		spec["namespace"] = "u-ns"
+		spec["kind"] = "u-kind"
+		spec["metadata"] = map[string]any{"labels": map[string]any{"a": "b"}}
+		spec["matchLabels"] = map[string]any{"tier": "u-gold"}
 	case 4: // empty user spec (meta family)
 	}
 	return spec
@@ -307,6 +327,9 @@ func editUserModify(spec map[string]any) {
 		spec["items"] = append(it, map[string]any{"name": "i3"})
 	}
 	spec["count"] = int64(7)
+	if _, ok := spec["name"]; ok {
+		spec["name"] = "u-name-2"
+	}
 }
 
 // editUserRemove removes user fields (whole fields and nested members).
@@ -314,6 +337,8 @@ func editUserRemove(spec map[string]any) {
 	delete(spec, "param")
 	delete(spec, "count")
 	delete(spec, "free")
+	delete(spec, "type")
+	delete(spec, "kind")
 	if n, ok := spec["nested"].(map[string]any); ok {
 		delete(n, "claimRef")
 		delete(n, "writeConnectionSecretToRef")
